@@ -1,12 +1,85 @@
 import GridVerif.Model.Proto
 import GridVerif.Model.Elem
+import GridVerif.Model.Moments
 
 namespace GridVerif.Driver.C14
-open GridVerif.Proto
+open GridVerif.Proto GridVerif.Moments
 
-/-- Line-protocol handler of property C14: `C14.<op> args…` ↦ one answer line
-(`none` = malformed, answered `bad-op`). -/
+/-
+  C14.horton   <type> <dim> <l>                      -> ok <imat rows> | value-error
+  C14.orders   <type> <dim> <L>                      -> ok <imat rows>          (stacked, no checks)
+  C14.rowindex <l> <m>                               -> ok <int>
+  C14.moments  <type> <L> <dim> <fmat points> <fvec weights> <fvec f> <fmat centres>
+               <ntabs> <fmat tab>…                   -> ok <fmat values> <imat orders> | error tag
+  C14.dipole   <dim> <fmat points> <fvec weights> <fvec density> <fmat coords> <fvec charges>
+               <fvec masses>                         -> ok <fvec> | error tag
+  type ∈ cartesian | radial | pure | pure-radial
+-/
+
+def pType : String → Option MomType
+  | "cartesian" => some .cartesian
+  | "radial" => some .radial
+  | "pure" => some .pure
+  | "pure-radial" => some .pureRadial
+  | _ => none
+
+def sErr : Err → String
+  | .valueError => "value-error"
+  | .typeError => "type-error"
+  | .indexError => "index-error"
+
+def pTabs : Nat → List String → Option (List (List (List Float)) × List String)
+  | 0, rest => some ([], rest)
+  | k + 1, toks => do
+    let (t, rest) ← pMat pFloat toks
+    let (ts, rest) ← pTabs k rest
+    pure (t :: ts, rest)
+
 def handle : List String → Option String
+  | ["C14.horton", ty, dim, l] => do
+    let ty ← pType ty
+    let dim ← pNat dim
+    let l ← pNat l
+    match hortonOrders ty dim l with
+    | .ok rows => pure ("ok " ++ sMat toString rows)
+    | .error e => pure (sErr e)
+  | ["C14.orders", ty, dim, L] => do
+    let ty ← pType ty
+    let dim ← pNat dim
+    let L ← pNat L
+    pure ("ok " ++ sMat toString (allOrdersRaw ty L dim))
+  | ["C14.rowindex", l, m] => do
+    let l ← pInt l
+    let m ← pInt m
+    pure s!"ok {rowIndex l m}"
+  | "C14.moments" :: ty :: L :: dim :: rest => do
+    let ty ← pType ty
+    let L ← pNat L
+    let dim ← pNat dim
+    let (pts, rest) ← pMat pFloat rest
+    let (w, rest) ← pVec pFloat rest
+    let (f, rest) ← pVec pFloat rest
+    let (cs, rest) ← pMat pFloat rest
+    let nt ← rest.head?.bind pNat
+    let (tabs, rest) ← pTabs nt (rest.drop 1)
+    if rest ≠ [] then none else
+    if pts.length ≠ w.length then none else
+    match moments ty L (⟨dim, pts, w⟩ : Grid Float) cs f tabs with
+    | .ok (vals, orders) => pure s!"ok {sMat sFloat vals} {sMat toString orders}"
+    | .error e => pure (sErr e)
+  | "C14.dipole" :: dim :: rest => do
+    let dim ← pNat dim
+    let (pts, rest) ← pMat pFloat rest
+    let (w, rest) ← pVec pFloat rest
+    let (dens, rest) ← pVec pFloat rest
+    let (coords, rest) ← pMat pFloat rest
+    let (charges, rest) ← pVec pFloat rest
+    let (masses, rest) ← pVec pFloat rest
+    if rest ≠ [] then none else
+    if pts.length ≠ w.length ∨ coords.length ≠ charges.length ∨ masses.length ≠ charges.length then none else
+    match dipole (⟨dim, pts, w⟩ : Grid Float) dens coords charges masses with
+    | .ok v => pure ("ok " ++ sFloats v)
+    | .error e => pure (sErr e)
   | _ => none
 
 end GridVerif.Driver.C14
